@@ -129,6 +129,9 @@ CHECKS = {
     'C38': ('Opened results of real secure polynomials (mpyc.secpols, NumPy venv) on simulated party worlds validated by TLC against Poly.tla / PolyTrace.tla (same specification as C23)',
             'Primes 3..31 (thorough ..101), degrees <= 2 (thorough 3), shares padded with 0..2 leading zero coefficients, created by conversion and by mpc.input, m in {1,3,4}: + - * neg, all six comparisons, divmod // %, gcd, gcdext, invert, powmod (negative exponents too), **, << >>, evaluation at public / secret points, degree, monic, reverse, truncate, [], copy, if_else, is_irreducible; LenPublicOK: result share lengths depend on operand lengths and public arguments only.',
             'Operations that use the secret degree need shares shorter than p (documented assumption): full operator set for 2(deg+1+pad)-1 < p, ring operations for tiny primes.', 'DESIGN.md C38'),
+    'C37': ('Opened results of real secure NumPy arrays (NumPy venv) on simulated party worlds, plain NumPy results and elementwise secure-scalar results, all validated by TLC against Arrays.tla / ArraysTrace.tla (NumPy semantics from first principles)',
+            'Secure integer, fixed-point and prime-field arrays of up to 3 dimensions and 14 elements, every broadcast-compatible shape pair, created by conversion and by mpc.input: + - * / ** << neg abs sgn, six comparisons, minimum/maximum, matmul (1-D/2-D combinations), outer, sum prod all any amin amax argmin argmax cumsum along every axis, sort flip roll, reshape flatten transpose swapaxes expand_dims squeeze, concatenate stack vstack hstack append, indexing and slicing, where, copy, input/output; m in {1,3,4} (thorough 5), PRSS on/off. Array sharing / recombination / PRSS against the list versions: C11, C12, C15, C17 run both variants.',
+            'Small shapes and entries; fixed-point products within 2n+1 units; prime fields only.', 'DESIGN.md C37'),
 }
 NA_REASON = 'check not built yet in this session (planned, see DESIGN.md section 3); not claimed'
 
